@@ -23,6 +23,10 @@ var profileOf = map[string]string{"C06": "pure", "C10": "pure", "C12": "pure", "
 var boundedOf = map[string][2]string{
 	"C01": {"match", "^TestBoundedC01Fits$"},
 	"C02": {"match", "^TestBoundedC02Embeddings$"},
+	// C03, relational clause (same result on re-evaluation): on the C02 space the result SET of the real Match equals a
+	// deterministic oracle at every evaluation, so an order-dependent loss or gain of matches is seen; an order
+	// dependence that keeps the set (or hits only inputs outside the space) is not
+	"C03": {"match", "^TestBoundedC02Embeddings$"},
 	"C14": {"sio", "^TestBoundedC14Requeue$"},
 }
 
@@ -506,7 +510,7 @@ func cmdCheck(args []string) int {
 	}
 	if boundedStats != nil {
 		cov["bounded_stand_in"] = boundedStats
-		cov["bounded_note"] = "BOUNDED: the real function (match.Match for C01/C02, sio.(*Crew).ProcessMsg for C14) was run on every input of the space described in bounded_stand_in.bound and compared with an executable specification written from the property text; this part is exhaustive within that bound only and is not counted in obligations/discharged"
+		cov["bounded_note"] = "BOUNDED: the real function (match.Match for C01/C02/C03, sio.(*Crew).ProcessMsg for C14) was run on every input of the space described in bounded_stand_in.bound and compared with an executable specification written from the property text; this part is exhaustive within that bound only and is not counted in obligations/discharged"
 		if ev, ok := boundedStats["evaluations"].(float64); ok {
 			cov["evaluations"] = int(ev)
 		}
